@@ -443,4 +443,145 @@ theorem appendAt_err {s : Store} (hw : WF s) {h : Nat} {H : List Key} {d : Nat} 
   obtain ⟨l, hl, hlen⟩ := hh.length_eq hw
   simp [appendAt, hl, ← hlen, hi]
 
+
+/-! ## `AddValidator` in terms of histories -/
+
+theorem spec_add_noop {H : List Key} {index : Nat} {pub : Key} (h : H[index]? = some pub) :
+    Spec.add H index pub = .noop := by simp [Spec.add, h]
+
+theorem spec_add_append {H : List Key} {index : Nat} {pub : Key} (hi : index = H.length) (hp : pub ∉ H) :
+    Spec.add H index pub = .append := by
+  subst hi
+  simp [Spec.add, hp]
+
+theorem spec_add_fork {H : List Key} {index : Nat} {pub : Key} (hne : H[index]? ≠ some pub)
+    (hi : index < H.length) (hp : pub ∉ H.take index) :
+    Spec.add H index pub = .fork (H.take index ++ [pub]) := by
+  have h1 : index ≤ H.length := by omega
+  have h2 : index ≠ H.length := by omega
+  simp [Spec.add, hne, h1, hp, h2]
+
+theorem spec_add_err {H : List Key} {index : Nat} {pub : Key} (hne : H[index]? ≠ some pub)
+    (hc : ¬ (index ≤ H.length ∧ pub ∉ H.take index)) : Spec.add H index pub = .err := by
+  simp only [Spec.add, hne, ↓reduceIte, hc]
+
+theorem addValidator_simple {s : Store} (hw : WF s) {h : Nat} {H : List Key} {d : Nat} (hh : Hist s h H d)
+    {index : Nat} {pub : Key} (hpub : pub ∉ H) (hidx : H.length ≤ index) {fuel : Nat} (hf : d ≤ fuel) :
+    addValidator s fuel h index pub = appendAt s h index pub := by
+  cases fuel with
+  | zero => have := hh.depth_pos; omega
+  | succ f =>
+    simp only [addValidator, validatorIndex_eq hw hh (f + 1) hf pub, pubkey_eq hw hh (f + 1) hf index,
+      List.idxOf?_eq_none_iff.mpr hpub, List.getElem?_eq_none_iff.mpr hidx]
+
+theorem addValidator_fork_simple {s : Store} (hw : WF s) {h : Nat} {H : List Key} {d : Nat} (hh : Hist s h H d)
+    {t index : Nat} {pub : Key} (ht : t ≤ H.length) (hpub : pub ∉ H.take t) (hidx : t ≤ index)
+    {fuel : Nat} (hf : d + 1 ≤ fuel) :
+    addValidator (fork s h t) fuel s.length index pub = appendAt (fork s h t) s.length index pub := by
+  obtain ⟨hw1, hh1⟩ := wf_fork hw hh ht
+  exact addValidator_simple hw1 hh1 hpub (by simp [List.length_take]; omega) hf
+
+/-- What `AddValidator` does, read off the history of the handle it is called on. -/
+theorem addValidator_spec {s : Store} (hw : WF s) {h : Nat} {H : List Key} {d : Nat} (hh : Hist s h H d)
+    (index : Nat) (pub : Key) {fuel : Nat} (hf : d + 4 ≤ fuel) :
+    match Spec.add H index pub with
+    | .noop => addValidator s fuel h index pub = .ok (s, some h)
+    | .append => ∃ s', addValidator s fuel h index pub = .ok (s', some h) ∧ WF s' ∧ s'.length = s.length ∧
+        Hist s' h (H ++ [pub]) d ∧ ∀ x Hx dx, x ≠ h → Hist s x Hx dx → Hist s' x Hx dx
+    | .fork H' => ∃ s' h' d', addValidator s fuel h index pub = .ok (s', some h') ∧ WF s' ∧ s.length ≤ h' ∧
+        s.length ≤ s'.length ∧ Hist s' h' H' d' ∧ d' ≤ d + 2 ∧ ∀ x Hx dx, Hist s x Hx dx → Hist s' x Hx dx
+    | .err => ∃ s', addValidator s fuel h index pub = .ok (s', none) := by
+  obtain ⟨lh, hlh⟩ : ∃ lh, s[h]? = some lh := ⟨s[h]'hh.lt_length, List.getElem?_eq_getElem _⟩
+  have hn : H.Nodup := (hw _ _ hlh).nodup _ _ hh
+  obtain ⟨f, rfl⟩ : ∃ f, fuel = f + 1 := ⟨fuel - 1, by omega⟩
+  have hA := validatorIndex_eq hw hh (f + 1) (by omega) pub
+  have hB := pubkey_eq hw hh (f + 1) (by omega) index
+  cases eA : H.idxOf? pub with
+  | some j =>
+    have hj : H[j]? = some pub := getElem?_of_idxOf? eA
+    have hjl : j < H.length := (List.getElem?_eq_some_iff.mp hj).1
+    by_cases e : j = index
+    · subst e
+      rw [spec_add_noop hj]
+      simp [addValidator, hA, hB, eA, hj]
+    · -- the key sits at another index: fork out at j, then retry
+      obtain ⟨hw1, hh1⟩ := wf_fork hw hh (Nat.le_of_lt hjl)
+      have hnot1 : pub ∉ H.take j := not_mem_take_of_nodup hn hj (Nat.le_refl _)
+      have hne : H[index]? ≠ some pub := fun hc => e (nodup_index_unique hn hj hc)
+      obtain ⟨f', rfl⟩ : ∃ f', f = f' + 1 := ⟨f - 1, by omega⟩
+      have hA1 := validatorIndex_eq hw1 hh1 (f' + 1) (by omega) pub
+      have hB1 := pubkey_eq hw1 hh1 (f' + 1) (by omega) index
+      have step0 : addValidator s (f' + 1 + 1) h index pub = addValidator (fork s h j) (f' + 1) s.length index pub := by
+        conv => lhs; unfold addValidator
+        simp [hA, hB, eA, e]
+      by_cases hlt : index < j
+      · -- a different key sits at `index` below j: fork out again at `index`, then append
+        obtain ⟨k, hk⟩ : ∃ k, H[index]? = some k := ⟨H[index]'(by omega), List.getElem?_eq_getElem _⟩
+        have hkp : k ≠ pub := fun hc => hne (hc ▸ hk)
+        have hnot2 : pub ∉ (H.take j).take index := fun hm => hnot1 (List.mem_of_mem_take hm)
+        have hlen1 : (H.take j).length = j := by simp [List.length_take]; omega
+        have step1 : addValidator (fork s h j) (f' + 1) s.length index pub =
+            addValidator (fork (fork s h j) s.length index) f' (fork s h j).length index pub := by
+          conv => lhs; unfold addValidator
+          simp [hA1, hB1, List.idxOf?_eq_none_iff.mpr hnot1, List.getElem?_take, hlt, hk, hkp]
+        have step2 := addValidator_fork_simple hw1 hh1 (t := index) (index := index) (pub := pub)
+          (by omega) hnot2 (Nat.le_refl _) (fuel := f') (by omega)
+        obtain ⟨hw2, hh2⟩ := wf_fork hw1 hh1 (t := index) (by omega)
+        have htt : (H.take j).take index = H.take index := by
+          rw [List.take_take]; congr 1; omega
+        rw [htt] at hh2 hnot2
+        obtain ⟨s3, h3, hw3, hl3, hh3, hpres⟩ := appendAt_ok hw2 hh2 (index := index) (pub := pub)
+          (by simp [List.length_take]; omega) hnot2
+        rw [spec_add_fork hne (by omega) hnot2]
+        refine ⟨s3, (fork s h j).length, d + 1 + 1, ?_, hw3, ?_, ?_, hh3, by omega, ?_⟩
+        · rw [step0, step1, step2, h3]
+        · simp [length_fork]
+        · rw [hl3]; simp [length_fork]; omega
+        · intro x Hx dx hx
+          have hxl : x < s.length := hx.lt_length
+          exact hpres x Hx dx (by simp [length_fork]; omega) (hx.fork_mono.fork_mono)
+      · -- the key sits below `index`: the forked level expects j next, so this is the gap error
+        have hgt : j < index := by omega
+        have step1 : addValidator (fork s h j) (f' + 1) s.length index pub =
+            appendAt (fork s h j) s.length index pub :=
+          addValidator_simple hw1 hh1 hnot1 (by simp [List.length_take]; omega) (by omega)
+        have herr := appendAt_err hw1 hh1 (index := index) (pub := pub) (by simp [List.length_take]; omega)
+        rw [spec_add_err hne]
+        · exact ⟨_, by rw [step0, step1, herr]⟩
+        · rintro ⟨_, hnot⟩
+          apply hnot
+          apply List.mem_iff_getElem?.mpr
+          exact ⟨j, by rw [List.getElem?_take]; simp [hgt, hj]⟩
+  | none =>
+    have hpub : pub ∉ H := List.idxOf?_eq_none_iff.mp eA
+    have hne : H[index]? ≠ some pub := fun hc => hpub (List.mem_iff_getElem?.mpr ⟨_, hc⟩)
+    by_cases hlt : index < H.length
+    · -- another key sits at `index`: fork out at `index`, then append
+      obtain ⟨k, hk⟩ : ∃ k, H[index]? = some k := ⟨H[index]'hlt, List.getElem?_eq_getElem _⟩
+      have hkp : k ≠ pub := fun hc => hne (hc ▸ hk)
+      have hnot : pub ∉ H.take index := fun hm => hpub (List.mem_of_mem_take hm)
+      have step0 : addValidator s (f + 1) h index pub = addValidator (fork s h index) f s.length index pub := by
+        conv => lhs; unfold addValidator
+        simp [hA, hB, eA, hk, hkp]
+      have step1 := addValidator_fork_simple hw hh (t := index) (index := index) (pub := pub)
+        (by omega) hnot (Nat.le_refl _) (fuel := f) (by omega)
+      obtain ⟨hw1, hh1⟩ := wf_fork hw hh (t := index) (by omega)
+      obtain ⟨s2, h2, hw2, hl2, hh2, hpres⟩ := appendAt_ok hw1 hh1 (index := index) (pub := pub)
+        (by simp [List.length_take]; omega) hnot
+      rw [spec_add_fork hne hlt hnot]
+      refine ⟨s2, s.length, d + 1, ?_, hw2, Nat.le_refl _, ?_, hh2, by omega, ?_⟩
+      · rw [step0, step1, h2]
+      · rw [hl2]; simp [length_fork]
+      · intro x Hx dx hx
+        have hxl : x < s.length := hx.lt_length
+        exact hpres x Hx dx (by omega) hx.fork_mono
+    · have step0 : addValidator s (f + 1) h index pub = appendAt s h index pub :=
+        addValidator_simple hw hh hpub (by omega) (by omega)
+      by_cases heq : index = H.length
+      · obtain ⟨s', h', hw', hl', hh', hpres⟩ := appendAt_ok hw hh heq hpub
+        rw [spec_add_append heq hpub]
+        exact ⟨s', by rw [step0, h'], hw', hl', hh', hpres⟩
+      · rw [spec_add_err hne (by omega)]
+        exact ⟨s, by rw [step0, appendAt_err hw hh heq]⟩
+
 end Zrnt.PubkeyCache
